@@ -69,6 +69,22 @@ def run(ctx):
                 cdf = inverse_cdf(pi, k, fr[i], n_s, seed, i + 1)
                 ctx.ob("C15.inverse-cdf", f"{tag}:snapshot {i}", cdf[0], cdf[1], loc)
     ctx.floor("C15.pairing", 6)
+    # reproducibility: a second call with the same arguments (after an unrelated call in between) selects with the same draws
+    ctx.rule("C15.reproducible", "two calls with the same seed and inputs in one process return the same selections (the generator is created afresh per call, "
+                                 "so the k-th call does not continue the stream of an earlier one)")
+    I = Interp(ctx.program)
+    f = public(ctx, I, dotted)
+    A, fr, seed = symarr("A", (2, 3, 3, 3)), symarr("f", (2, 3), positive=True), alg.sym("seed")
+    try:
+        first = I.call(f, (A.copy(), fr.copy()), {"seed": seed})
+        I.call(f, (symarr("B", (1, 2, 3, 3)), symarr("g", (1, 2), positive=True)), {"seed": alg.sym("seed2"), "n_samples": 4})
+        second = I.call(f, (A.copy(), fr.copy()), {"seed": seed})
+        same = all(keyof(a) == keyof(b) for x, y in zip(first, second) for a, b in zip(np.asarray(x, dtype=object).flat, np.asarray(y, dtype=object).flat))
+        ctx.ob("C15.reproducible", "same seed, same inputs, called twice", same,
+               "the second call selects with different draws than the first" if not same else "identical selections", loc)
+    except RaiseSig as r:
+        ctx.ob("C15.reproducible", "same seed, same inputs, called twice", False, f"raises {r.exc.typename}", loc)
+    ctx.floor("C15.reproducible", 1)
     # validation
     bad_inputs = {
         "orientations rank": (symarr("A", (2, 3, 3)), symarr("f", (2, 3))),
